@@ -315,6 +315,24 @@ def process_batch(rec, builder, cases, new_case, workdir):
                                                  common.short(c.expr, 300)), wit2)
 
 
+def ptr_source(ptr):
+    """kind of the pointer expression; a conditional is transparent for C typing (its
+    arms are not masked), so a signed division in an arm names the pointer"""
+    kinds = set()
+
+    def walk(x, depth=0):
+        if x.is_cond() and depth < 6:
+            walk(x.src1, depth + 1)
+            walk(x.src2, depth + 1)
+        else:
+            kinds.add(xc.kind(x))
+    walk(ptr)
+    signed = sorted(k for k in kinds if k in ('sdiv', 'smod'))
+    if signed:
+        return signed[0]
+    return xc.kind(ptr)
+
+
 def make_key(kind, detail, node, env):
     """mechanism key.  wrong value / abnormal end: operator + width class + operand condition
     class; stdout: operator + width class; sanitizer report: place and message (the same
@@ -340,7 +358,7 @@ def make_key(kind, detail, node, env):
     if node.is_mem():
         # C has a single memory model: what matters is the kind and width of the pointer expression
         w = ""
-        cls = "ptr=%s/%d" % (xc.kind(node.ptr), node.ptr.size)
+        cls = "ptr=%s/%d" % (ptr_source(node.ptr), node.ptr.size)
     if kind == "dies":
         # the count class is what matters for shifts/rotations, not the width parity
         cls = cls.split(" ")[-1] if cls.startswith("width=") else cls
